@@ -33,7 +33,7 @@ def plan(tier):
 
 @st.composite
 def cases(draw):
-    recipe = draw(gen.problem_recipe(densities=(10, 10, 6, 12), styles=True))
+    recipe = draw(gen.problem_recipe(densities=(10, 10, 6, 12), styles=True, offsets=True))
     iters = st.one_of(st.sampled_from([1, 2, 3, 30, 100, 300]), st.integers(5, 300), st.integers(20, 300))
     params = draw(gen.solver_params(recipe["n"], recipe["density"], iters, cheap=False))
     total = draw(st.one_of(st.integers(0, 4), st.integers(5, min(max(5, params["itersLimit"]), 120)),
